@@ -236,8 +236,7 @@ class MultiKeyLookup:
         if obj in self._objects:
             return
         with self._lock:
-            self._objects.add(obj)
-            self._mk_indices(obj)
+            self._add_no_lock(obj)
 
     def add_object_no_lock(self, obj: Any):
         """Add object to table without using the lock.
@@ -246,8 +245,7 @@ class MultiKeyLookup:
         """
         if obj in self._objects:
             return
-        self._objects.add(obj)
-        self._mk_indices(obj)
+        self._add_no_lock(obj)
 
     def add_objects(self, objects: list[Any]):
         """Add objects to table.
@@ -265,18 +263,31 @@ class MultiKeyLookup:
         for obj in objects:
             if obj in self._objects:
                 continue
-            self._objects.add(obj)
-            self._mk_indices(obj)
+            self._add_no_lock(obj)
 
     def _mk_indices(self, obj: Any):
         all_keys = []  # for this object
-        for index_definition in self._idx_defs.values():
-            try:
-                tmp_keys = [_ObjRef(index_definition, k) for k in index_definition.mk_keys(obj)]
-                all_keys.extend(tmp_keys)
-            except (TypeError, AttributeError):  # noqa: PERF203
-                pass
+        try:
+            for index_definition in self._idx_defs.values():
+                try:
+                    tmp_keys = [_ObjRef(index_definition, k) for k in index_definition.mk_keys(obj)]
+                    all_keys.extend(tmp_keys)
+                except (TypeError, AttributeError):  # noqa: PERF203
+                    pass
+        except Exception:
+            # e.g. the KeyError of a unique index: take back the entries made in other indices so far
+            for obj_ref in all_keys:
+                obj_ref.index_dict.rm_key(obj_ref.key, obj)
+            raise
         self._object_ids[id(obj)].extend(all_keys)
+
+    def _add_no_lock(self, obj: Any):
+        self._objects.add(obj)
+        try:
+            self._mk_indices(obj)
+        except Exception:
+            self._objects.discard(obj)  # a rejected object is not part of the table
+            raise
 
     def _rm_indices(self, obj: Any):
         obj_refs = self._object_ids.get(id(obj), [])
